@@ -35,6 +35,18 @@ META = {
         "text": "DB-level clauses proved over the model: a kill entry is recorded only for a listed replica that is not a member of the view and whose reported version is older than the view's (kill_test_spec, kill_entry_justified), and after a report from address a the kill list is exactly the other addresses' entries plus a's currently reported stray replicas (kill_list_after_report) - so entries stop with the first report that no longer lists the replica. Found and fixed F-C11. Closed-loop clauses (member_never_killed, quiescence) are served by the loop model once loopsim is registered.",
         "note": DBTB, "technique": TECH,
     },
+    "C08": {
+        "text": "Theorems over the scheduler model for every context, region specification, host order and random stream: the launch planner never crashes (launch_never_crashes: the only non-result is running out of scripted draws), an accepted launch is one valid plan per definition in order (launch_complete, launch_count), every planned shard has exactly one request per member pairing member i with target i, on pairwise distinct hosts that pass the live and not-hosting filters (launch_shard_valid), and per region exactly the quota (launch_quota). scheddiff runs the real launch() on contexts answered by the real DB over the full matrix of region specifications with the Go map orders and draws handed to the model; the Go-side oracle re-states the plan validity on the real requests. Found and fixed F-C08.",
+        "note": DBTB + " The model of the planner is the repaired one; the planner of the pinned commit with its crashes is kept as Drummer.launch (Model/Sched2.lean).", "technique": TECH,
+    },
+    "C12": {
+        "text": "Theorems over the scheduler model for every context/order/stream: every restore request targets a failed member whose host is in the image, available and lists exactly that replica in its persisted log, carries the view's membership, Restore=true, Join=false, the definition's app name and goes to the replica's own host (restore_justified, restorable_spec, restore_requests_shape); every restorable member gets one (restore_complete); repair skips restored shards so no shard gets a restore and a membership change in one round (repair_skips_restored). The quorum clause holds on the restoreUnavailableShards path; for restoreFailed with a waiting member it does not (restore_below_quorum_witness, a theorem about the model, replayed on the real code by scheddiff): known finding F-C12.",
+        "note": DBTB, "technique": TECH,
+    },
+    "C02": {
+        "text": "Per decision (scheduler model, all contexts/orders/draws): every DELETE / ADD / join-CREATE is justified by the classification it was computed from, fenced by the view's version, sent to a healthy member's host, at most one per shard per round, the ADD target passes the live and not-hosting filters and the new id is non-zero and unused in the view (repair_decision_justified, repair_round_justified, replacement_host_ok). Closed loop (loop model: real DB model + scheduler model + fleet model, any events incl. crashes, restarts, lost reports/replies, lagging replicas, from a cold start incl. launch): size <= |members| <= size+1, member addresses pairwise distinct, views mirror a past membership, removed ids never return (step_preserves_invariant, reachable_groups_wf, reachable_views_mirror, removed_ids_never_return, cold_start_invariant). Found and fixed F-C02.",
+        "note": DBTB + " The fleet half of the loop model (dragonboat's ordered config change: applies only at the version it carries; start/restart rules) is an assumption, validated against real NodeHosts by the agent harness (C18).", "technique": TECH,
+    },
     "C03": {
         "text": "In the model apply is a function of state and command, so determinism is by construction; what carries content is (i) the regenerated field fact snapshot_fields_agree (every serialised field of DB is restored by RecoverFromSnapshot and nothing else), (ii) order irrelevance of the one map-order-dependent merge (merge_order_irrelevant), and (iii) the correspondence run, which executes every sequence on three real replicas (straight, restored from a snapshot at a random prefix, repeated run) and compares results, hashes, dumps and the scheduler-context answer among them and with the model. F-C03 (non-UTF-8 KV key lost by the JSON snapshot) is a recorded known finding.",
         "note": DBTB + " JSON text and md5 are not modelled in Lean; hashes are compared as equality classes.", "technique": TECH,
